@@ -148,6 +148,49 @@ func runC05(p *core.Prog, r *core.Report) {
 	if put == nil {
 		return
 	}
+	// the Store handed to the handlers is the pool's own: taken with Get (sync.Pool never hands one object to two
+	// callers) or freshly made — not read from some other shared slot (a "spare" kept beside the pool is read by two
+	// concurrent requests before either clears it)
+	{
+		var bad []string
+		seen := map[ssa.Value]bool{}
+		var walk func(v ssa.Value)
+		walk = func(v ssa.Value) {
+			v = sx.Unspill(v)
+			if v == nil || seen[v] {
+				return
+			}
+			seen[v] = true
+			switch x := v.(type) {
+			case *ssa.Phi:
+				for _, e := range x.Edges {
+					walk(e)
+				}
+			case *ssa.TypeAssert:
+				walk(x.X)
+			case *ssa.Extract:
+				walk(x.Tuple)
+			case *ssa.ChangeType:
+				walk(x.X)
+			case *ssa.Alloc:
+				if !x.Heap {
+					bad = append(bad, "a local at "+p.Pos(x.Pos()))
+				}
+			case *ssa.Call:
+				if n := sx.CalleeName(x); n != "(*sync.Pool).Get" {
+					bad = append(bad, "the result of "+short(n)+" at "+p.Pos(x.Pos()))
+				}
+			default:
+				bad = append(bad, short(sx.ValPath(v)))
+			}
+		}
+		for _, a := range relay.(ssa.CallInstruction).Common().Args {
+			if types.Identical(ptrTo(a.Type()), store) {
+				walk(a)
+			}
+		}
+		r.Check(len(bad) == 0, "C05-R3", "ServeHTTP: the request's Store is the pool's (Get or new)", p.Pos(relay.Pos()), "the Store given to the handlers comes from sync.Pool.Get (or is freshly made) on every path", "the Store given to the handlers can be "+strings.Join(uniq(bad), ", ")+": a slot outside the pool has no hand-out-once guarantee, two concurrent requests can hold the same Store and see each other's route, parameters, status and ID")
+	}
 
 	// pool constructor: the function stored into storePool.New (a closure returning *Store), or the place where a Store is
 	// allocated when the pool had none
